@@ -149,10 +149,10 @@ PLAN['C20'] = {
     'technique': 'Kani full-domain harnesses for per-clause choice meaning and Choice bit algebra; Verus proofs of the VM tracing and bulk interpreters (one trace entry per choice clause in tape order, OR-ed into a cleared slot, trace returned iff some clause is decided; output matrix shape) and of the counts carried by simplify; bounded native contract runner for JIT traces',
     'level_text': 'Proved for all inputs (Kani, loop-free): every f32/Interval *_choice result is Left/Right/Both and is what the operand values imply; Both iff tie or NaN for min/max; and/or never Both on points; OR-ing into a cleared slot records exactly the clause choice. Proved for all tapes and inputs (Verus, real text of VmPointEval::eval / VmIntervalEval::eval): the trace has exactly choice_count entries, the k-th choice clause in execution order ORs its choice into entry k of a trace cleared to Unknown (the real Choice::bitor_assign is verified against the bit-field algebra), `simplify` is the disjunction of `choice != Both` over all clauses and a trace is returned iff it is true; for the bulk interpreters the result has exactly output_count rows of exactly `size` samples and every column is the single-point run. JIT == VM traces and JIT output shapes are bounded stand-ins (emitted code is outside verifier reach).',
     'level_note': 'Trusted: Kani/CBMC/CaDiCaL, Verus+Z3, extractor rewrite rules (R-slotarray, R-choiceiter, R-iter, R-boolor, R-copyprefix, R-itermut, R-deref, R-tail ...), the stubs/axioms of unit vm. Bounded only: JIT traces and JIT output array shapes; Function::size/vars/output_count agreement.',
-    'legs': [leg_kani('leaf'), leg_verus('simplify'), leg_verus('vm'), leg_bounded('interp_point'), leg_bounded('trace_vm'), leg_bounded('jit_trace'),
+    'legs': [leg_kani('leaf'), leg_verus('simplify'), leg_verus('vm'), leg_verus('jit'), leg_bounded('interp_point'), leg_bounded('trace_vm'), leg_bounded('jit_trace'),
              leg_bounded('interp_bulk'), leg_bounded('jit_bulk'), leg_bounded('reuse')],
     'explanation': 'Per-clause meaning is a complete proof over all 2^64 operand pairs (Kani); the tape-level statements for the VM evaluators are Verus postconditions of the real eval functions (unit vm); JIT tape-level statements are enumerated by the bounded runner.',
-    'cex': ['simplify_sem'],
+    'cex': ['simplify_sem', 'jit_trace', 'jit_bulk', 'reuse'],
     'assumptions': ['JIT tape-level clauses are bounded stand-ins (jit_trace, jit_bulk)', 'tape_ok(tape): the number of choice clauses of the register tape is at most choice_count (assumed from SsaTape::new/RegTape::new; simplify proves choice_count == number of choice clauses of its SSA result)'],
 }
 del NOT_APPLICABLE['C20']
@@ -162,7 +162,7 @@ PLAN['C11'] = {
     'technique': 'Verus total-mode proofs (every assert!/panic!/unwrap/index/overflow in alloc.rs, lru.rs, reg_tape.rs, simplify is an obligation); Kani full-domain totality harnesses for Interval operations; bounded native contract runner for the evaluators',
     'level_text': 'Proved: the compiler core (register allocation for N in 3..=255, simplify) cannot panic on well-formed tapes; Interval select/round operations return normally on ALL valid intervals including infinite bounds and the NaN interval (Kani, complete); add/sub/scale/neg are total on all valid intervals (Verus on the real text, under the float axioms: after the repair the obligation is monotonicity of one f32 operation, which CBMC cannot decide). The four VM evaluator loops cannot panic on tapes satisfying tape_ok: every slot/output/input index, every advance of the choice cursor and every range copy is an obligation of the Verus proofs of the real eval functions (unit vm), and the only failure is the documented argument error. The Shape-level wrappers ShapeTracingEval::eval_raw and ShapeBulkEval::eval_raw cannot panic either (unit shape: their unreachable!() arms are proved unreachable, whatever a reused evaluator object held).  The remaining Interval arithmetic and the JIT are bounded stand-ins.',
     'level_note': 'Trusted: Verus+Z3, Kani/CBMC. Not covered: stack exhaustion, allocation failure. Bounded only: JIT evaluators, Interval/Grad arithmetic other than the functions of unit interval on overflow grids, VarMap::check_bulk_arguments (stub in unit vm).',
-    'legs': [leg_verus('alloc'), leg_verus('simplify'), leg_verus('interval'), leg_verus('vm'), leg_verus('shape'), leg_verus('varmap'), leg_kani('leaf'), leg_bounded('interp_interval'), leg_bounded('total'), leg_bounded('jit_interval_valid')],
+    'legs': [leg_verus('alloc'), leg_verus('simplify'), leg_verus('interval'), leg_verus('vm'), leg_verus('shape'), leg_verus('varmap'), leg_verus('jit'), leg_kani('leaf'), leg_bounded('interp_interval'), leg_bounded('total'), leg_bounded('jit_interval_valid')],
     'cex': ['total', 'interp_interval', 'alloc_cex', 'simplify_sem'],
     'explanation': 'Totality of the integer state machines is a corollary of their total-mode proofs; the genuine defect found here (Interval add/sub/scale panicking on NaN bounds) is repaired in /repo (fix: 081f714).',
     'assumptions': ['sqrt/square/recip/mul/div/trig totality of Interval: bounded leg only (CBMC models sqrtf/powi nondeterministically; one f32 division does not finish)'],
@@ -194,13 +194,16 @@ del NOT_APPLICABLE['C05']
 
 
 PLAN['C02'] = {
-    'level': 'exploration',
-    'technique': 'bounded native contract runner: JIT evaluators vs interpreter on enumerated one-op tapes, spill-forcing random tapes and all slice lengths (the emitted machine code is outside verifier reach; stand-in only)',
-    'level_text': 'Bounded stand-in only: the semantics of the JIT lives in bytes emitted through dynasm!, which neither Verus nor Kani can take. Every opcode x operand form x register/stack placement x special-value grid, all slice lengths 0..=4*SIMD+3, 1-3 outputs and seeded deep tapes that force stack spills are compared with the interpreter under the property\'s own equality. A mutation inside a dynasm! block is caught only if this grid reaches it.',
-    'level_note': 'Nothing is proved for this property. Trusted: the interpreter as oracle (itself covered by C01\'s bounded interpreter leg against the reference opcode meaning).',
-    'legs': [leg_bounded('jit_point'), leg_bounded('jit_bulk')],
-    'explanation': 'exploration: enumerated grid + seeded random tapes, see coverage.bounded[*].space for the exact spaces',
-    'assumptions': ['aarch64 back end not exercised (x86_64 host)'],
+    'level': 'other',
+    'technique': 'contract-based deductive verification (Verus) of the Rust drivers around the emitted machine code - JitBulkEval::eval and JitTracingEval::eval of fidget-jit/src/lib.rs on their real text, raw pointers as ghost-carrying stand-ins, the emitted function as one trusted stand-in with a stated contract; bounded native contract runner (JIT evaluators vs interpreter) for the emitted machine code itself, which is outside verifier reach',
+    'level_text': 'Partial. Proved unbounded (unit jit, every slice length n including 0, n < SIMD width and n not a multiple of it, every number of variables and outputs, whatever the evaluator object held before): the many-point driver hands the machine code only pointers that are valid for the count passed with them (scratch rows of MAX_SIMD_WIDTH elements for n < SIMD, the caller\'s slices and the evaluator\'s own output rows otherwise, ptr::add inside its allocation, count a multiple of the SIMD width), and returns one row per output holding exactly one result per input sample, each equal to the compiled function on that sample\'s column - under the stated contract of the machine code (call_bulk: reads and writes exactly `count` elements per pointer). Same for the single-point driver: arrays sized and cleared before the call, a trace returned iff a clause is decided. SIMD_SIZE of both impls within 1..=MAX_SIMD_WIDTH (both architectures). NOT proved: that the emitted bytes implement that contract and agree with the interpreter opcode by opcode - bounded stand-in only: every opcode x operand form x register/stack placement x special-value grid, all slice lengths 0..=4*SIMD+3, 1-3 outputs and seeded deep tapes that force stack spills are compared with the interpreter under the property\'s own equality.',
+    'level_note': 'Trusted: Verus+Z3; the stand-ins of unit jit (call_bulk / call_trace = what the machine code is assumed to do; CPtr/MPtr pointer stand-ins with std\'s validity rules; assume_specification for Vec::resize_with and slice::fill). The interpreter is the oracle of the bounded legs (itself proved against the reference opcode meaning in unit vm, C01).',
+    'legs': [leg_verus('jit'), leg_bounded('jit_point'), leg_bounded('jit_bulk')],
+    'cex': ['jit_bulk', 'jit_point'],
+    'explanation': 'Drivers: Verus postconditions of the real functions (units/jit.py). Machine code: enumerated grid + seeded random tapes, see coverage.bounded[*].space for the exact spaces',
+    'assumptions': ['aarch64 back end not exercised (x86_64 host); its SIMD_WIDTH is checked against MAX_SIMD_WIDTH',
+                    'call_bulk / call_trace: the emitted function touches exactly `count` elements behind each pointer and computes sem(k, column) - exercised natively by jit_bulk / jit_point / jit_trace / reuse, never proved',
+                    'uniform(vars) and vars.len() >= var_count: established by VarMap::check_bulk_arguments before the driver is called (proved in unit varmap)'],
 }
 del NOT_APPLICABLE['C02']
 
@@ -209,7 +212,7 @@ PLAN['C10'] = {
     'technique': 'contract-based deductive verification (Verus): RegisterAllocator::reset establishes exactly the abstract view of new (`fresh`), simplify\'s contract is independent of the previous workspace/tape contents, the allocator theorem holds from arbitrary initial slot contents; bounded native contract runner for evaluator/storage reuse',
     'level_text': 'Proved unbounded: reset(size, tape) yields the same complete abstract view as new(size) whatever the allocator held before (allocations, registers, LRU order, spare lists, empty tape, slot_count 0); VmWorkspace::reset likewise; simplify\'s proved postconditions mention neither old(workspace) nor the recycled tape; stale register/memory contents are unobservable because the C01 theorem is quantified over all initial slot contents. Evaluator objects, JIT Mmap reuse and Function::recycle are bounded stand-ins (all ordered pairs of 12 functions x 3 backends x 4 evaluator kinds).',
     'level_note': 'Trusted: Verus+Z3; assume_specification for slice::fill and mem::take; vstd specs of Vec::resize/clear. Proved in unit vm: TracingVmEval::resize_slots and BulkVmEval::resize_slots give slots/outputs/trace exactly the shape of the new tape whatever the evaluator held before, the trace is cleared to Unknown, and the results of the four VM eval functions are functions of the tape, the inputs and the (arbitrary) initial slot contents only. Proved in unit shape: the Shape-level wrappers ShapeTracingEval::eval_raw and ShapeBulkEval::eval_raw rebuild their argument vector / argument matrix (exactly max(#variables,1) rows of exactly n samples) from the current tape and inputs whatever the wrapper object held before. Bounded only: JIT storage growth, RenderHandle (contract render_handle: cached simplification keyed by trace, recycle into shared pools).',
-    'legs': [leg_verus('alloc'), leg_verus('simplify'), leg_verus('vm'), leg_verus('shape'), leg_bounded('reuse'), leg_bounded('shape_reuse'), leg_bounded('render_handle')],
+    'legs': [leg_verus('alloc'), leg_verus('simplify'), leg_verus('vm'), leg_verus('shape'), leg_verus('jit'), leg_bounded('reuse'), leg_bounded('shape_reuse'), leg_bounded('render_handle')],
     'explanation': 'reset == new on the view is the postcondition `fresh(size)` shared by both functions; see units/alloc/spec.py',
     'assumptions': ['JIT evaluator-object reuse and Function::recycle are enumerated, not proved'],
     'cex': ['reuse', 'shape_reuse'],
